@@ -18,6 +18,24 @@ class _NP:
 
 
 G.numpy = _NP      # stub: keep results as python lists (no realisation at the numpy boundary)
+
+
+class _Bound:
+    """grouping functions with their *_params arguments (none on the pinned tree) bound to the parameters
+    in force latest; the z3 engine (fgsym/groupsym) covers every parameter variant"""
+    def __init__(self, mod):
+        self._mod = mod
+
+    def __getattr__(self, name):
+        import inspect
+        f = getattr(self._mod, name)
+        if not callable(f) or not any(a.endswith("_params") for a in inspect.signature(f).parameters):
+            return f
+        from gsv import gt
+        return gt.bound(f)
+
+
+G = _Bound(G)
 N = __N__
 P = list(range(N))
 PERMS = [list(p) for p in itertools.permutations(range(N))][1:]
